@@ -136,6 +136,11 @@ func cellStores(a *ssa.Alloc) (stores []*ssa.Store, ok bool) {
 					}
 				}
 			case *ssa.DebugRef:
+			case *ssa.BinOp:
+				// the address compared (with nil): no access
+				if x.Op != token.EQL && x.Op != token.NEQ {
+					ok = false
+				}
 			case *ssa.MakeInterface:
 				// &x passed as any (e.g. json.Unmarshal(b, &x)): escapes
 				ok = false
